@@ -12,6 +12,9 @@ import (
 // error returned by a processor that is allowed to fail
 var errFail = errors.New("harness processor: rejected input")
 
+// value a processor that is allowed to panic panics with (not a runtime.Error: the read is a declared failure)
+var errPanic = errors.New("harness processor: panic on this input")
+
 const hmod = 1000003
 
 type out = nodes.NodeOutput[int]
@@ -19,14 +22,15 @@ type out = nodes.NodeOutput[int]
 type meta struct {
 	salt  int
 	fail  bool // the processor returns an error when its hash is divisible by 3
-	execs int
-	fails int // number of executions that returned an error
+	panics bool // the processor panics when its hash is divisible by 5
+	execs  int  // number of calls of Process() that returned (with or without an error)
+	fails  int  // number of executions that returned an error
+	blown  int  // number of calls of Process() that panicked
 }
 
 // failing processors return (hmod + hash, err): a value no successful run can produce, so that the
 // error/value distinction is part of what consumers and the from-scratch evaluation see
 func (m *meta) run(ports [][]out) (int, error) {
-	m.execs++
 	acc := m.salt
 	for _, p := range ports {
 		acc = (acc*37 + 11 + len(p)) % hmod
@@ -34,11 +38,39 @@ func (m *meta) run(ports [][]out) (int, error) {
 			acc = (acc*31 + o.Value()) % hmod
 		}
 	}
+	if m.panics && acc%5 == 0 {
+		m.blown++
+		panic(errPanic)
+	}
+	m.execs++
 	if m.fail && acc%3 == 0 {
 		m.fails++
 		return hmod + acc, errFail
 	}
 	return acc, nil
+}
+
+// input fields declared with looser interface types than nodes.NodeOutput[int] that HOLD node outputs
+type valuer interface{ Value() int }
+type embValuer interface{ valuer }
+
+func lo(x any) []out {
+	if x == nil {
+		return nil
+	}
+	return []out{x.(out)}
+}
+
+type LooseData struct {
+	m   *meta
+	One valuer    // one-method interface
+	N   out       // a normal input next to them
+	Any any       // empty interface
+	Emb embValuer // interface embedding the one-method interface
+}
+
+func (d LooseData) Process() (int, error) {
+	return d.m.run([][]out{lo(d.One), sc(d.N), lo(d.Any), lo(d.Emb)})
 }
 
 func sc(o out) []out {
@@ -162,6 +194,7 @@ var kinds = []struct {
 	{"wide", []field{{"F", false}, {"E", false}, {"D", false}, {"C", false}, {"B", false}, {"A", false}}},
 	{"multi", []field{{"Scales", true}, {"Offset", false}, {"Inputs", true}, {"Zeta", false}, {"Alpha", false}}},
 	{"pref", []field{{"In2", false}, {"Inb", true}, {"In", true}, {"Ina", false}, {"I", false}}},
+	{"loose", []field{{"One", false}, {"N", false}, {"Any", false}, {"Emb", false}}},
 }
 
 func kindIndex(name string) int {
@@ -182,8 +215,8 @@ type live struct {
 	m     *meta             // struct nodes only
 }
 
-func newStruct(kind string, salt int, fail bool) *live {
-	m := &meta{salt: salt, fail: fail}
+func newStruct(kind string, salt int, fail, panics bool) *live {
+	m := &meta{salt: salt, fail: fail, panics: panics}
 	switch kind {
 	case "chain":
 		n := &nodes.Struct[int, ChainData]{Data: ChainData{m: m}}
@@ -211,6 +244,9 @@ func newStruct(kind string, salt int, fail bool) *live {
 		return &live{node: n, ref: n.Out(), value: n.Value, m: m}
 	case "pref":
 		n := &nodes.Struct[int, PrefData]{Data: PrefData{m: m}}
+		return &live{node: n, ref: n.Out(), value: n.Value, m: m}
+	case "loose":
+		n := &nodes.Struct[int, LooseData]{Data: LooseData{m: m}}
 		return &live{node: n, ref: n.Out(), value: n.Value, m: m}
 	}
 	panic("unknown kind " + kind)
